@@ -3,32 +3,59 @@
    [exact] of a lemma from Proofs/C05*.v, followed by Print Assumptions.
 
    Specification: Spec/JsonMap.v (protoc_json_name, json_spec, json_accepts), validated against the
-   reference by tie T3 of harness/props/c05.py.  *)
-From BP Require Import Base.Prelude Model.Casing Spec.JsonMap.
-From BP Require Import Proofs.C05Casing.
+   reference by tie T3 of harness/props/c05.py.  Model of betterproto's to_dict / from_dict:
+   Model/Json.v (property C04's mirror, tied to the code by C04's correspondence).
 
-(* ---- key names ----
-   betterproto's JSON key of a field whose .proto name is [name] (the plugin names the attribute
+   What is proved, and what is not:
+   * key names: betterproto's key = protoc's json_name under the decidable condition json_name_safe,
+     witnesses where they differ (K3), exactness of the condition on short names;
+   * leaves, both directions, for ALL in-range values: every scalar betterproto emits is literally the canonical
+     form (C05_emit_scalar_canonical), the canonical form is accepted by the specified reference parser as the
+     same value (C05_spec_*_roundtrip), betterproto's reader takes the canonical form back (C05_accept_scalar);
+     Timestamp / Duration strings at microsecond resolution likewise;
+   * K13: -0.0 in an implicit-presence field (C05_emit_neg_zero_refuted).
+   * PENDING (not stated as theorems, no admitted lemma anywhere): the message-level statements
+       C05_emit   : json_supported sc o -> json_name_safe on every field name ->
+                    model_emit_accepts sc (jschema_of sc) c o = Some (abs sc o)
+       C05_accept : wf a -> model_reads_canonical sc (jschema_of sc) c cls a = Some a
+     i.e. the composition of the leaf theorems over fields, repeated fields, maps, wrappers, oneofs and
+     nested messages (object keys through protoc_json_name_agrees).  Their executable forms
+     Proofs/C05Model.v model_emit_accepts / model_reads_canonical are evaluated inside Coq by the harness on every
+     generated message (and on the instance Examples below); enum leaves (Model/Enum.v, property C20) are covered
+     by those evaluations only. *)
+From BP Require Import Base.Prelude Model.Types Model.Float Model.Object Model.WellFormed Model.TimeCore Model.Casing.
+From BP Require Import Spec.Time.
+From BP Require Model.Json Model.Time Spec.JsonMap.
+From BP Require Proofs.C04Def.
+From BP Require Import Proofs.C05Casing Proofs.C05Leaf Proofs.C05Model.
+
+Module J := Model.Json.
+Module S := Spec.JsonMap.
+
+(* ====================================================================================== *)
+(* key names                                                                               *)
+(* ====================================================================================== *)
+(* betterproto's JSON key of a field whose .proto name is [name] (the plugin names the attribute
    safe_snake_case name, to_dict emits camel_case(attribute).rstrip("_")) is protoc's json_name for
    every lower_snake name without a digit directly followed by a letter and without a letter right
    after leading underscores. *)
 Theorem protoc_json_name_agrees : forall name,
-  json_name_safe name = true -> camel_key (safe_snake_case name) = protoc_json_name name.
+  json_name_safe name = true -> camel_key (safe_snake_case name) = S.protoc_json_name name.
 Proof. exact protoc_json_name_agrees_thm. Qed.
 Print Assumptions protoc_json_name_agrees.
 
 (* K3: names written with capitals: HTTPStatus -> "httpStatus" (protoc: "HTTPStatus"), fooBAR -> "fooBar", FooBar -> "fooBar" *)
 Theorem protoc_json_name_mixed_case_refuted :
-  proto_ident n_HTTPStatus = true /\ bp_json_key n_HTTPStatus <> protoc_json_name n_HTTPStatus /\
-  proto_ident n_fooBAR = true /\ bp_json_key n_fooBAR <> protoc_json_name n_fooBAR /\
-  proto_ident n_FooBar = true /\ bp_json_key n_FooBar <> protoc_json_name n_FooBar.
+  proto_ident n_HTTPStatus = true /\ bp_json_key n_HTTPStatus <> S.protoc_json_name n_HTTPStatus /\
+  proto_ident n_fooBAR = true /\ bp_json_key n_fooBAR <> S.protoc_json_name n_fooBAR /\
+  proto_ident n_FooBar = true /\ bp_json_key n_FooBar <> S.protoc_json_name n_FooBar.
 Proof. exact json_name_mixed_case_refuted_thm. Qed.
 Print Assumptions protoc_json_name_mixed_case_refuted.
 
 (* K3: lower_snake names outside the side condition: a1b -> "a1B" (protoc: "a1b"), _foo -> "foo" (protoc: "Foo") *)
 Theorem protoc_json_name_lower_snake_refuted :
-  (lower_snake n_a1b = true /\ no_leading_us_letter n_a1b = true /\ bp_json_key n_a1b <> protoc_json_name n_a1b) /\
-  (lower_snake n__foo = true /\ no_digit_letter n__foo = true /\ bp_json_key n__foo <> protoc_json_name n__foo).
+  (lower_snake n_a1b = true /\ no_leading_us_letter n_a1b = true /\ bp_json_key n_a1b <> S.protoc_json_name n_a1b) /\
+  (lower_snake n__foo = true /\ no_digit_letter n__foo = true /\ bp_json_key n__foo <> S.protoc_json_name n__foo).
 Proof. exact json_name_lower_snake_refuted_thm. Qed.
 Print Assumptions protoc_json_name_lower_snake_refuted.
 
@@ -41,3 +68,125 @@ Print Assumptions protoc_json_name_side_condition_exact_len6.
 Example protoc_json_name_agrees_nonvacuous :
   json_name_safe n_foo_bar_2 = true /\ bp_json_key n_foo_bar_2 = [x66; x6f; x6f; x42; x61; x72; x32].
 Proof. exact json_name_safe_ex. Qed.
+
+(* ====================================================================================== *)
+(* the specification is coherent: canonical leaves are accepted as the same value           *)
+(* ====================================================================================== *)
+Theorem C05_spec_scalar_roundtrip : forall k v, wf_scalar k v = true ->
+  exists j, S.spec_scalar k v = Some j /\ S.acc_scalar k j = Some v.
+Proof. exact spec_scalar_accepted. Qed.
+Print Assumptions C05_spec_scalar_roundtrip.
+
+Theorem C05_spec_map_key_roundtrip : forall k v, wf_key k v = true ->
+  exists s, S.key_str k v = Some s /\ S.acc_key k s = Some v.
+Proof. exact spec_key_accepted. Qed.
+Print Assumptions C05_spec_map_key_roundtrip.
+
+Theorem C05_spec_base64_roundtrip : forall bs, S.b64_decode (S.b64_encode bs) = Some bs.
+Proof. exact b64_decode_encode. Qed.
+Print Assumptions C05_spec_base64_roundtrip.
+
+Theorem C05_spec_timestamp_roundtrip : forall s u,
+  S.TS_MIN_S <= s <= S.TS_MAX_S -> 0 <= u < 1000000 ->
+  S.ts_parse (S.ts_str s (u * 1000)) = Some (s, u * 1000).
+Proof. exact spec_timestamp_accepted. Qed.
+Print Assumptions C05_spec_timestamp_roundtrip.
+
+Theorem C05_spec_duration_roundtrip : forall d,
+  - (DUR_MAX_S * 1000000) <= d <= DUR_MAX_S * 1000000 ->
+  let '(s, n) := dur_of_us d in
+  dur_parse (dur_json s n) = Some (s, n) /\ S.dur_in_range s n = true.
+Proof. exact spec_duration_accepted. Qed.
+Print Assumptions C05_spec_duration_roundtrip.
+
+Example C05_spec_scalar_roundtrip_nonvacuous :
+  wf_scalar S.KUInt64 (S.AInt (2 ^ 64 - 1)) = true /\ wf_scalar S.KFloat (S.AFloat f64_neg_inf) = true /\
+  wf_scalar S.KDouble (S.AFloat S.nan_bits) = true /\ wf_key S.KBool (S.ABool true) = true /\
+  S.spec_scalar S.KUInt64 (S.AInt (2 ^ 64 - 1)) =
+    Some (S.JStr [x31; x38; x34; x34; x36; x37; x34; x34; x30; x37; x33; x37; x30; x39; x35; x35; x31; x36; x31; x35]).
+Proof. repeat split; vm_compute; reflexivity. Qed.
+
+(* ====================================================================================== *)
+(* EMIT, leaves: what betterproto (as modelled) writes                                     *)
+(* ====================================================================================== *)
+(* every in-range scalar is written in exactly the canonical form (64-bit integers as decimal strings,
+   base64 with padding, "NaN" / "Infinity" / "-Infinity", plain numbers otherwise).  The 64-bit table and the
+   three float strings are the regenerated ones (gen/Tables.v): a changed table breaks this proof. *)
+Theorem C05_emit_scalar_canonical : forall sc t k p v,
+  skind_of t = Some k -> scalar_in_range t v = true ->
+  exists a, abs_scalar v = Some a /\ conv (J.scalar_to_json sc t p v) = S.spec_scalar k a.
+Proof. exact model_scalar_is_canonical. Qed.
+Print Assumptions C05_emit_scalar_canonical.
+
+(* ... and is therefore accepted by the reference parser (as specified) as the same value *)
+Theorem C05_emit_scalar_partial : forall sc t k p v,
+  skind_of t = Some k -> scalar_in_range t v = true -> C04Def.nan_canonical v = true ->
+  exists a j, abs_scalar v = Some a /\ conv (J.scalar_to_json sc t p v) = Some j /\ S.acc_scalar k j = Some a.
+Proof. exact model_scalar_emit_accepted. Qed.
+Print Assumptions C05_emit_scalar_partial.
+
+(* Timestamp: RFC 3339 UTC "Z" with 0/3/6 fractional digits = the canonical string; accepted as (seconds, nanos) of the instant *)
+Theorem C05_emit_timestamp : forall us,
+  (dt_min_us <=? us) && (us <=? dt_max_us) = true ->
+  J.ts_text us = S.ts_str (fst (ts_of_us us)) (snd (ts_of_us us)) /\
+  S.ts_parse (J.ts_text us) = Some (ts_of_us us) /\
+  S.ts_in_range (fst (ts_of_us us)) (snd (ts_of_us us)) = true.
+Proof. intros us R. split; [apply model_timestamp_is_canonical | apply model_timestamp_emit_accepted, R]. Qed.
+Print Assumptions C05_emit_timestamp.
+
+(* Duration: decimal seconds with "s", accepted as the Duration of the span; canonical except that whole seconds
+   carry ".000" *)
+Theorem C05_emit_duration : forall us,
+  (- 315576000000000000 <=? us) && (us <=? 315576000000000000) = true ->
+  dur_parse (Model.Time.delta_to_json us) = Some (dur_of_us us) /\
+  S.dur_in_range (fst (dur_of_us us)) (snd (dur_of_us us)) = true /\
+  (us mod 1000000 <> 0 -> Model.Time.delta_to_json us = dur_json (fst (dur_of_us us)) (snd (dur_of_us us))).
+Proof. exact model_duration_emit_accepted. Qed.
+Print Assumptions C05_emit_duration.
+
+(* K13: a plain double holding -0.0 is left out by to_dict; the canonical printer writes it and the parser
+   reads +0.0 from betterproto's text *)
+Theorem C05_emit_neg_zero_refuted :
+  scalar_in_range TDouble (PFloat (2 ^ 63)) = true /\
+  J.to_dict J.CAMEL false nz_sc nz_obj = J.JObj [] /\
+  S.json_spec nz_js 0 nz_aval = Some (S.JObj [(nz_name, S.JFloat (2 ^ 63))]) /\
+  model_emit_accepts nz_sc nz_js 0 nz_obj = Some (S.AMsg [S.FOne (S.AFloat 0)]) /\
+  S.AMsg [S.FOne (S.AFloat 0)] <> nz_aval.
+Proof. exact neg_zero_refuted_thm. Qed.
+Print Assumptions C05_emit_neg_zero_refuted.
+
+(* ====================================================================================== *)
+(* ACCEPT, leaves: what betterproto (as modelled) reads                                    *)
+(* ====================================================================================== *)
+Theorem C05_accept_scalar_partial : forall sc t k p v a j,
+  skind_of t = Some k -> pyty_fits (length (classes sc)) (length (enums sc)) t p = true ->
+  scalar_in_range t v = true -> C04Def.nan_canonical v = true ->
+  abs_scalar v = Some a -> S.spec_scalar k a = Some j ->
+  J.scalar_from_json sc t p (unconv j) = Ok v.
+Proof. exact model_scalar_accepts_canonical. Qed.
+Print Assumptions C05_accept_scalar_partial.
+
+Theorem C05_accept_timestamp : forall us,
+  (dt_min_us <=? us) && (us <=? dt_max_us) = true ->
+  J.iso_parse (S.ts_str (fst (ts_of_us us)) (snd (ts_of_us us))) = Ok us.
+Proof. exact model_timestamp_accepts_canonical. Qed.
+Print Assumptions C05_accept_timestamp.
+
+Example C05_leaf_theorems_nonvacuous :
+  skind_of TSFixed64 = Some S.KSFixed64 /\ scalar_in_range TSFixed64 (PInt (- 2 ^ 63)) = true /\
+  scalar_in_range TFloat (PFloat f64_pos_inf) = true /\ C04Def.nan_canonical (PFloat f64_pos_inf) = true /\
+  (dt_min_us <=? 1583020799250000) && (1583020799250000 <=? dt_max_us) = true /\
+  J.ts_text 1583020799250000 =
+    [x32; x30; x32; x30; x2d; x30; x32; x2d; x32; x39; x54; x32; x33; x3a; x35; x39; x3a; x35; x39; x2e; x32; x35; x30; x5a].
+Proof. repeat split; vm_compute; reflexivity. Qed.
+
+(* ====================================================================================== *)
+(* the pending message-level statements, on one message holding every leaf form            *)
+(* ====================================================================================== *)
+Example C05_emit_instance :
+  option_map S.cv_of_aval (model_emit_accepts Ex.ex_sc Ex.ex_js 0 Ex.ex_obj) = Some (S.cv_of_aval Ex.ex_aval).
+Proof. exact model_emit_instance. Qed.
+Example C05_accept_instance :
+  option_map S.cv_of_aval (model_reads_canonical Ex.ex_sc Ex.ex_js 0 (length builtin_classes) Ex.ex_aval) =
+  Some (S.cv_of_aval Ex.ex_aval).
+Proof. exact model_accept_instance. Qed.
